@@ -9,7 +9,7 @@ from ..evidence import Run, canon_hash
 
 PID = "C12"
 SHARDS = {"quick": 8, "thorough": 16}
-SHARD_TIMEOUT = {"quick": 600, "thorough": 2400}
+SHARD_TIMEOUT = {"quick": 1500, "thorough": 3600}
 N_RANDOM = {"quick": 150, "thorough": 6000}
 MAX_CAUSES = 4
 
@@ -20,21 +20,35 @@ def new_run():
         "cases = DataFrameSchema specs from pvm/c12_gen.py: a deterministic "
         "catalogue (benign base + exactly one serialisable attribute set to "
         "each adversarial value class: every frame/column/index attribute, "
-        "every builtin check x value family x option subset, every dtype "
-        "alias, duplicated check kinds) followed by seeded random "
-        "combinations of 1-4 such features; every case runs the real "
-        "to_yaml/from_yaml, to_json/from_json, to_script+exec and the second "
-        "generation writer; non-trivial = the spec has at least one "
-        "non-default serialisable attribute and at least one route reached "
-        "the comparison stage; distinct = canonical hash of the spec",
+        "every builtin check x value family x option subset, every string "
+        "class (quotes, yaml-ish, keywords, words that are bare names in a "
+        "generated script such as nan/inf/Timestamp, ...) in every text slot "
+        "and every string-valued check argument, every dtype alias, "
+        "duplicated check kinds), a history catalogue (the same check = kind "
+        "+ dtype + fresh statistics held with different options by two "
+        "components of one schema, in both orders, and by consecutive "
+        "schemas read by the same process: sequences of 2-3 specs), "
+        "followed by seeded random combinations of 1-4 such features "
+        "(statistics from the pool or from a wide random range) and random "
+        "sequences (a spec, then close variants of it); every spec runs the "
+        "real to_yaml/from_yaml, to_json/from_json, to_script+exec, the "
+        "second generation writer and a repeated write; a sequence is one "
+        "case, its later elements are judged like any spec (what a read "
+        "returns may not depend on earlier reads); non-trivial = the spec "
+        "has at least one non-default serialisable attribute and at least "
+        "one route reached the comparison stage; distinct = canonical hash "
+        "of the spec (of the list of specs for a sequence)",
         ["comparison is against a pristine twin built from the same spec, so "
          "a writer that modifies its argument cannot hide a loss",
-         "probe frames: 6 per case, 4 rows, values on the boundaries of the "
-         "spec's own check arguments",
+         "probe frames: 6 per spec, 4 rows, values on the boundaries of the "
+         "spec's own check arguments; a verdict is accept / the set of "
+         "(reason, column) / the number of reported failure cases (the only "
+         "effect of the serialised option n_failure_cases)",
          "only attributes pandera serialises are generated (no Check "
          "title/description/error/element_wise/groupby, no Column default/"
          "metadata/parsers/drop_invalid_rows, no MultiIndex-level options, "
-         "no custom checks)",
+         "no custom checks, no NaN statistic: nan != nan makes even two "
+         "builds of one spec unequal)",
          "not judged (counted under undecided:*): the JSON route for "
          "non-string column labels (JSON object keys are strings), "
          "numerically equal statistics that differ only in int/float type "
@@ -68,16 +82,68 @@ def _probes_for(seed_key):
     return f
 
 
-def one_case(run, label, spec, seed_key, collect=None):
+def one_case(run, label, payload, seed_key, collect=None):
+    """One case = one spec, or a list of specs executed in order by this
+    process (the later elements are judged like any other spec: what a read
+    returns must not depend on what was read before)."""
     _warmup()
-    key = canon_hash(spec)
+    if not isinstance(payload, list):
+        out = _one_spec(run, label, payload, seed_key, collect, [])
+        if out is None:
+            return
+        nontrivial, sample = out
+        run.case(canon_hash(payload), nontrivial, sample=sample)
+        run.count("part:" + ("random" if label == "random" else "catalogue"))
+        return
+    history, samples, nontrivial = [], [], False
+    run.count(f"sequence:len={len(payload)}")
+    for j, spec in enumerate(payload):
+        out = _one_spec(run, label, spec, f"{seed_key}|{j}", collect,
+                        list(history))
+        history.append(spec)
+        if out is None:
+            continue
+        nontrivial = nontrivial or out[0]
+        samples.append(out[1])
+        if j:
+            run.count("sequence:later-element-judged")
+            rel = "same-spec" if spec in payload[:j] else (
+                "options-differ" if _only_options_differ(spec, payload[j - 1])
+                else "attributes-differ")
+            run.count("sequence:later-element:" + rel)
+    if not samples:
+        return
+    run.case(canon_hash(payload), nontrivial, sample={
+        "label": label, "sequence": [
+            {k: s[k] for k in ("tokens", "failure_kinds_per_route",
+                               "probe_verdicts_original")} for s in samples],
+        "specs": payload})
+    run.count("part:" + ("random-seq" if label == "random-seq"
+                         else "catalogue-seq"))
+
+
+def _only_options_differ(a, b):
+    strip = lambda s: json.dumps(_without_opts(s), sort_keys=True)
+    return a != b and strip(a) == strip(b)
+
+
+def _without_opts(s):
+    s = json.loads(json.dumps(s))
+    for h in [s["checks"]] + [c["checks"] for c in s["columns"]] + \
+            [c["checks"] for c in (s["index"] or [])]:
+        for c in h:
+            c["opts"] = {}
+    return s
+
+
+def _one_spec(run, label, spec, seed_key, collect, history):
     toks = G.tokens(spec)
     probes_for = _probes_for(seed_key)
     try:
         S0 = G.build(spec)
     except Exception as e:
         run.count("build_error:" + type(e).__name__)
-        return
+        return None
     probes = probes_for(spec)
     twin_v = O.verdict_vector(S0, probes)
     for v in twin_v:
@@ -109,21 +175,39 @@ def one_case(run, label, spec, seed_key, collect=None):
                       else f"roundtrip_not_judged:{route}")
             continue
         run.count(f"roundtrip_failed:{route}")
-        _attribute(run, label, spec, route, r, probes_for, collect)
+        _attribute(run, label, spec, route, r, probes_for, collect, history)
+    count_tokens(run, label, toks)
+    nontrivial = reached and any(not t.startswith("ncols=") for t in toks)
+    return nontrivial, {
+        "label": label, "spec": spec, "tokens": toks,
+        "failure_kinds_per_route": route_kinds,
+        "probe_verdicts_original": [v[0] for v in twin_v]}
+
+
+def count_tokens(run, label, toks):
+    """Evidence counters that are a function of the generated spec alone."""
+    if label.startswith(("sibling.", "seq:")):
+        run.count("history-case:" + label)
     for t in toks:
         run.count("feature:" + t.split("=")[0].split(":")[0])
+        head, _, val = t.partition(":")
+        if head.endswith((".name", ".title", ".description")):
+            for cls in val.split("+"):      # string class in a text slot
+                run.count("strclass:" + cls)
+        elif head.endswith(".check-arg"):
+            for v in (val[5:-1].split(",") if val.startswith("list[")
+                      else [val]):
+                if v.startswith("str-"):    # string class in a check argument
+                    for cls in v[4:].split("+"):
+                        run.count("strarg:" + cls)
+        elif head == "xcomp.checks":
+            run.count("sibling:" + val)
         if ".check:" in t or ".dtype:" in t or ".check-opt:" in t \
                 or ".check-arg:" in t:
             run.count("class:" + t)
-    nontrivial = reached and any(not t.startswith("ncols=") for t in toks)
-    run.case(key, nontrivial, sample={
-        "label": label, "spec": spec, "tokens": toks,
-        "failure_kinds_per_route": route_kinds,
-        "probe_verdicts_original": [v[0] for v in twin_v]})
-    run.count("part:" + ("catalogue" if label != "random" else "random"))
 
 
-def _attribute(run, label, spec, route, r, probes_for, collect):
+def _attribute(run, label, spec, route, r, probes_for, collect, history=()):
     """Split the failures of one route into independent minimal causes."""
     cur, res = spec, r
     for _ in range(MAX_CAUSES):
@@ -147,7 +231,13 @@ def _attribute(run, label, spec, route, r, probes_for, collect):
                 "minimal_spec": mini, "minimal_tokens": mtoks,
                 "detail": {k: rm.detail.get(k) for k in group[:4]},
                 "text": (rm.text or "")[:1500],
-                "original_tokens": G.tokens(spec)}
+                "original_tokens": G.tokens(spec),
+                # the minimiser re-executes in this process; when the cause
+                # is state left by an earlier read the minimal spec alone
+                # does not reproduce: replay first re-executes the history
+                # of the case and the original spec in the run's order
+                "original_spec": spec,
+                "history_in_this_case": list(history)}
             run.violation(gkind, witness, mech)
             run.count(f"cause:{route}:{mech or 'UNCLASSIFIED'}")
             if collect is not None:
@@ -178,7 +268,7 @@ def run(run, ctx):
         if i < len(cat):
             label, spec = cat[i]
         else:
-            label, spec = "random", G.random_spec(rng)
+            label, spec = G.random_case(rng)
         one_case(run, label, spec, f"{ctx.seed}|{PID}|probe|{i}")
     run.extra["catalogue_cases"] = len(cat) if ctx.shard == 0 else 0
 
@@ -196,9 +286,36 @@ def replay(path):
     wit = w["witness"]
     spec, route = wit["minimal_spec"], wit["route"]
     _warmup()
-    r = O.evaluate(spec, route,
-                   probes=_probes_for("replay")(spec))
+    pf = _probes_for("replay")
+    found = None
+    if wit.get("original_spec"):
+        # first what the run did, in the order the run did it (earlier
+        # elements of the sequence, every route, then the original spec up
+        # to the failing route): a cause that is state left behind by an
+        # earlier read only shows in that order, and reading the minimal
+        # spec first could hide it
+        for h in wit.get("history_in_this_case") or []:
+            for rt in O.ROUTES:
+                O.evaluate(h, rt, probes=pf(h))
+        for rt in O.ROUTES:
+            ro = O.evaluate(wit["original_spec"], rt,
+                            probes=pf(wit["original_spec"]))
+            if rt == route:
+                if set(wit["kinds"]) & set(ro.kinds):
+                    found = ro
+                print(json.dumps({"original_case": True, "route": rt,
+                                  "kinds": ro.kinds,
+                                  "tokens": wit.get("original_tokens")},
+                                 default=repr))
+                break
+    r = O.evaluate(spec, route, probes=pf(spec))
     print(json.dumps({"route": route, "kinds": r.kinds, "detail": r.detail,
                       "tokens": G.tokens(spec)}, indent=1, default=repr))
     print(r.text)
-    return 1 if r.kinds else 0
+    if not r.kinds and found is not None:
+        print("the minimal spec alone does not fail, the original case "
+              "(with its history) does:")
+        print(json.dumps({"kinds": found.kinds, "detail": found.detail},
+                         indent=1, default=repr))
+        print(found.text)
+    return 1 if (r.kinds or found is not None) else 0
